@@ -636,6 +636,8 @@ func (ex *Explorer) resetPath(w workItem) {
 	ex.unconf = false
 	ex.envDepth = 0
 	ex.envHook = nil
+	ex.onLock = nil
+	mon.reset()
 	activeTimers = nil
 	ex.pathObl, ex.pathDis, ex.pathTriv, ex.pathViol = ex.Obligations, ex.Discharged, ex.Trivial, len(ex.Violations)
 	ex.randStarted = false
